@@ -1322,26 +1322,34 @@ fn conv_step(cx: &mut Ctx, st: &mut State, s: usize, d: usize, edge: Edge) {
                     );
                 }
             }
+            // in-place form vs its value-returning twin on the same source: the
+            // conversion itself is the culprit if they differ, whether or not the
+            // result is also an invalid object (which C11 reports separately)
+            if let Some(tw) = twin {
+                cx.probe("conv.inplace_vs_fresh");
+                let same = guarded(|| h.full_eq(&tw)).unwrap_or(false);
+                if !same {
+                    cx.fail(
+                        "C15.inplace_eq_fresh",
+                        sig.clone(),
+                        format!(
+                            "{} into a used destination gives {} but the value-returning form gives {}",
+                            edge.name(),
+                            abridge(&guarded(|| h.debug()).unwrap_or_default()),
+                            abridge(&guarded(|| tw.debug()).unwrap_or_default())
+                        ),
+                    );
+                }
+            }
             st.slots[d] = h;
             if !settle(cx, st, d, edge.name()) {
-                // invalid result: C11 reported it; C15 does not judge garbage
+                // invalid result: C11 reported it; the content checks of C15 do not judge garbage
                 cx.ev(true, format_args!("convert s{}->s{} {} -> INVALID", s, d, edge.name()));
                 return;
             }
             dirty_probe(cx, &dm_before.c, &content_of(&h.view()));
             if dm_before.c.1.len() + dm_before.c.2.len() > 0 {
                 cx.probe("conv.dirty_destination");
-            }
-            // in-place form vs its value-returning twin
-            if let Some(tw) = twin {
-                cx.probe("conv.inplace_vs_fresh");
-                if !h.full_eq(&tw) {
-                    cx.fail(
-                        "C15.inplace_eq_fresh",
-                        sig.clone(),
-                        format!("{} into a used destination gives {} but the value-returning form gives {}", edge.name(), abridge(&h.debug()), abridge(&tw.debug())),
-                    );
-                }
             }
             let got = content_of(&h.view());
             // expected content
